@@ -12,8 +12,6 @@ Open Scope Z_scope.
 (* the entry fields (name, sequence[, quality]) among the columns of a record *)
 Definition efields (f : fmt) (cols : list (list Z)) : list (list Z) :=
   match f with FFastq => [nth 0 cols []; nth 1 cols []; nth 3 cols []] | _ => [nth 0 cols []; nth 1 cols []] end.
-Definition frows (f : fmt) (st : state) : list (list (list Z)) :=
-  match st with SLazy x sv => lazy_rows f x sv | SEager r => r end.
 Definition field_row (f : fmt) (v : list arow) (sv : setv) (k : nat) : list (list Z) :=
   map (fun i => match sv_get sv i with Some c => nth k c [] | None => a_field_text f i (nth k v dummy_arow) end) (arange (n_fields f)).
 
@@ -259,8 +257,9 @@ Proof.
     { destruct ol_nocat as (Hc1 & Hc2). rewrite Hc1, Hc2 in H.
       destruct (all_some (map as_lazy sts)) as [lz|] eqn:EL.
       - inversion H. rewrite (cat_lazy_rows f sts lz EL). reflexivity.
-      - destruct (all_some (map as_eager sts)) as [es|] eqn:EE; try discriminate.
-        inversion H. rewrite (cat_eager_rows f sts es EE). reflexivity. }
+      - destruct (all_some (map as_eager sts)) as [es|] eqn:EE.
+        + inversion H. rewrite (cat_eager_rows f sts es EE). reflexivity.
+        + inversion H. reflexivity. }
     subst st. cbn [frows st_ok modified spec_eval fst snd]. clear H E IH Hfo.
     split; [|split; [|split; auto]].
     + induction G as [|q s ps sts (A & _) _ IHG]; [reflexivity|]. cbn [map concat]. rewrite map_app, A, IHG. reflexivity.
@@ -291,7 +290,18 @@ Lemma write_modified v f st out : oneline f -> modified st = true ->
   write v f st = Some out -> out = concat (map (join_row v f) (frows f st)).
 Proof.
   intros Hf Hm H. destruct st as [x [|kc sv]|r]; try discriminate; destruct f; try contradiction; unfold write in H;
-    try (destruct (refused_lazy _ x (kc :: sv)); [discriminate|]); inversion H; reflexivity.
+    try (destruct (negb (v_lazyqual v) && refused_lazy _ x (kc :: sv)); [discriminate|]); inversion H; reflexivity.
+Qed.
+(* with the repaired get_column (v_lazyqual) nothing is refused: every modified one-line table is written *)
+Lemma write_modified_total v f st : oneline f -> v_lazyqual v = true -> modified st = true ->
+  write v f st = Some (concat (map (join_row v f) (frows f st))).
+Proof.
+  intros Hf Hv Hm. destruct st as [x [|kc sv]|r]; try discriminate; destruct f; try contradiction; unfold write; rewrite ?Hv; reflexivity.
+Qed.
+
+Lemma write_total v f st : oneline f -> v_lazyqual v = true -> exists out, write v f st = Some out.
+Proof.
+  intros Hf Hv. destruct st as [x [|kc sv]|r]; destruct f; try contradiction; unfold write; rewrite ?Hv; eexists; reflexivity.
 Qed.
 
 (* ---------------- the Spec's matcher accepts the re-joined rows ---------------- *)
